@@ -32,3 +32,8 @@ VARIANTS = [
     M('C06', 'refactor-rename-column-local', E(PC, "        name = verification_field(colname, 'max_nulls')\n        c = self.df[colname]\n        self.out_df[name] = pd.notnull(c)", "        flagname = verification_field(colname, 'max_nulls')\n        c = self.df[colname]\n        self.out_df[flagname] = pd.notnull(c)"),
       kind='refactor'),
 ]
+
+VARIANTS += [
+    M('C06', 'only-failing-rows-converted', E(PC, "                df_to_save = convert_output_types(out_df, boolean_ints)", "                rows = out_df if detect_write_all else out_df[out_df[nfailname] > 0]\n                df_to_save = convert_output_types(rows, boolean_ints)"),
+      rule='C06-ROWNUM', key='write_detected_records'),
+]
